@@ -62,4 +62,5 @@ func (t *Timer) Dispatch() {
 	for t.ctl.WaitFire() {
 		t.handler()
 	}
+	t.ctl.Exited()
 }
